@@ -12,6 +12,9 @@ def modelled : List String := [
   "babyjub.Blake512",
   "keccak256.<decls>@keccac256.go",
   "keccak256.Hash",
+  "tree.<layout>@babyjub",
+  "tree.<layout>@keccak256",
+  "tree.<layout>@root",
   "babyjub.<decls>@babyjub.go",
   "babyjub.<decls>@eddsa.go",
   "babyjub.<decls>@helpers.go",
@@ -25,6 +28,6 @@ theorem source_pinned : modelled.all (same I3.Gen.fingerprints) = true := by dec
 theorem function_set_pinned : (["babyjub.", "keccak256."] : List String).all (sameKeys I3.Gen.fingerprints) = true := by
   decide +kernel
 
-theorem modelled_nonempty : 9 = modelled.length := by decide
+theorem modelled_nonempty : 12 = modelled.length := by decide
 
 end I3.Props.C20
